@@ -110,8 +110,10 @@ impl Epoch {
             days.is_finite(),
             "Attempted to initialize Epoch with non finite number"
         );
+        // The MJD counts from 1858-11-17 in the provided time scale, but the duration of an Epoch
+        // counts from the reference epoch of its time scale, which is not 1900-01-01 for all of them.
         Self {
-            duration: (days - MJD_J1900) * Unit::Day,
+            duration: (days - MJD_J1900) * Unit::Day - time_scale.gregorian_epoch_offset(),
             time_scale,
         }
     }
@@ -147,8 +149,10 @@ impl Epoch {
             days.is_finite(),
             "Attempted to initialize Epoch with non finite number"
         );
+        // Cf. from_mjd_in_time_scale concerning the reference epoch of the time scale.
         Self {
-            duration: (days - MJD_J1900 - MJD_OFFSET) * Unit::Day,
+            duration: (days - MJD_J1900 - MJD_OFFSET) * Unit::Day
+                - time_scale.gregorian_epoch_offset(),
             time_scale,
         }
     }
